@@ -84,6 +84,9 @@ CAT = {
     'req_emptyname': req(extra=[B('', 'v')]),
     'req_nonutf8': req(extra=[B('x-bin', '\xff\xfe')]),
     'resp_cl_bad': [B(':status', '200'), B('content-length', 'abc')],
+    # two content-length fields that disagree (the library takes the first)
+    'resp_cl_two': [B(':status', '200'), B('content-length', '3'), B('content-length', '5')],
+    'req_cl_two': req(method='POST', extra=[B('content-length', '5'), B('content-length', '3')]),
     'resp_cl_neg': [B(':status', '200'), B('content-length', '-1')],
     'empty': [],
     # ---- corner cases added in round 2
@@ -143,7 +146,7 @@ TOK = {
     'xk': B('x-k', 'v1'), 'up': B('X-Up', 'v'), 'ws_name': B(' x-k', 'v'), 'ws_value': B('x-k', 'v '), 'conn': B('connection', 'close'),
     'te_ok': B('te', 'trailers'), 'te_bad': B('te', 'gzip'), 'host_a': B('host', 'a.example'), 'host_b': B('host', 'b.example'),
     'host_empty': B('host', ''), 'cookie_s': B('cookie', 'a=1'), 'cookie_l': B('cookie', 'bbbbbbbbbbbbbbbbbbbbbbbbbbbb=2'),
-    'cl3': B('content-length', '3'), 'cl_bad': B('content-length', 'abc'), 'empty_name': B('', 'v'), 'nonutf8': B('x-bin', '\xff\xfe'),
+    'cl3': B('content-length', '3'), 'cl5': B('content-length', '5'), 'cl_bad': B('content-length', 'abc'), 'empty_name': B('', 'v'), 'nonutf8': B('x-bin', '\xff\xfe'),
     'authz': B('authorization', 'secret'), 's_xk': S('x-k', 'v1'), 's_method': S(':method', 'GET'), 'up_pseudo': B(':Method', 'GET'),
     'pad_value': B('x-pad', ' v '), 'keepalive': B('Keep-Alive', 'x'),
     'ws_value_nl': B('x-k', 'v\n'), 'ws_value_ff': B('x-k', '\x0cv'), 's_ws_value_nl': S('x-s', '\tv\r\n'),
